@@ -18,6 +18,10 @@ CLAIMS = {
    technique="abstract evaluation of chan_push/chan_pop on abstract stacks; enter/leave pairing and injectivity of the constant dispatch tables vs. the catalogue's PAIR macros; typestate evaluation of per-model thread-state guards and end-of-trace lint",
    text="chan_pop/chan_push are explored on abstract stacks (empty, 1, 2, capacity-1, capacity, top equal/different, duplicate flags) and must implement match-the-top / refuse-full-stack exactly; for all 8 models every PAIR_x (and frozen hand-written) enter/leave pair must push and pop the same value on the same channel, and every (channel,value) must have exactly one enter and one leave event (dispatch tables evaluated exactly); every declared event is evaluated under the 6 consistent (running,active,out-of-CPU) thread states against the model's frozen precondition; each model's finish hook is evaluated in linter mode with open regions and its failure followed to main. Not decided: that a value 'means what its name documents' when both sides are swapped consistently.",
    design_ref="§4 C08"),
+ "C13": dict(
+   technique="abstract exploration (merging worklist over clang CFGs) of system_connect and every model's create/connect/finish hooks to compute registered vs. declared PRV types per output; constant-table label coverage; abstract evaluation of prv_advance/prv_close/prf_add/prf_close",
+   text="Per output (thread, cpu, both breakdown traces) the set of PRV types that can reach prv_register is computed from the code and constant tables and must be contained in the set reaching pcf_add_type on the same output; every constant value a model can write to a labelled channel (dispatch tables, task-body pushes, connect defaults, mux defaults, thread states, CPU affinity) must have a label; prv_advance / prv_close / write_line / prf_add / prf_close are evaluated on boundary cases (time going back, header rewrite, row bounds, duplicate and unset rows) and prv->time has a single writer. Not decided: that row numbers passed to prv_register are below the declared row count (a data fact of gindex numbering) and the zero/duplicate emission policy at run time.",
+   design_ref="§4 C13"),
  "C14": dict(
    technique="exhaustive abstract evaluation of the version predicates over {0,1,2}^6 and of the enable/event gating functions over their finite outcome domains (clang CFG path exploration)",
    text="version_is_compatible and the open-coded test in ovni_version_check_str are evaluated from their CFGs on all 729 (want,have) triples over {0,1,2} (every ordering of major/minor/patch) and must equal the semver relation; should_enable, model_version_probe (0-2 threads x {-1,0,1}), model_probe ({-1,0,1} x enable_all) and model_event (registered x enabled x hook result) are evaluated over their complete finite outcome domains; each model's probe must use its own spec; every version_parse result must be tested. Not decided: version_parse's handling of malformed strings (strtol semantics).",
